@@ -484,8 +484,20 @@ def check_registry(rep, prog):
     r = I.method(reg, "getErrorMessage", [Sym("code"), Sym("typ")])
     loops = [L for L in I.loops.values() if L.func.endswith("getErrorMessage")]
     if not loops:
-        raise AnalysisError("Registry.getErrorMessage no longer scans self.pels with a loop: look-up idiom not recognised, "
-                            "first-match/type/reason-code clauses cannot be decided")
+        # index idiom: the registry is looked up through a dictionary.  The key must identify an entry by BOTH its SRC type
+        # and its reason code (or the value must be scanned further); a key made of the reason code alone lets an entry of
+        # another type shadow the right one.
+        code, typ = Sym("code"), Sym("typ")
+        looks = [x for x in walk(r) if isinstance(x, Op) and x.op in ("m:get", "getitem", "dictget") and any(y == code for y in walk(x.args[1]))]
+        conds = [c for e in I.events if e.func.endswith("getErrorMessage") for c in walk(e.guard)]
+        looks += [x for x in conds if isinstance(x, Op) and x.op in ("m:get", "getitem", "dictget") and len(x.args) > 1 and any(y == code for y in walk(x.args[1]))]
+        if not looks:
+            raise AnalysisError("Registry.getErrorMessage: look-up idiom not recognised (neither a scan nor a dictionary keyed by the code)")
+        both = all(any(y == typ for y in walk(x.args[1])) for x in looks)
+        rep.check(both, rule, "registry index is keyed by SRC type and reason code together", "Registry.getErrorMessage", "index lookup",
+                  "the registry is indexed by reason code alone and the SRC type is only compared afterwards: when two entries of different "
+                  "types share a reason code, the one listed later is never found (its message is dropped)")
+        return
     first = isinstance(r, Ite) and any(isinstance(x, Op) and x.op == "loopret" for x in walk(r)) and len(loops) == 1 \
         and loops[0].iter == Sym("PELS")
     rep.check(first, rule, "getErrorMessage returns at the first matching registry entry (search over self.pels in order)",
